@@ -75,6 +75,10 @@ func (r RegistryHandler) MatchDataSignature(data []byte) bool {
 	if err != nil {
 		return false
 	}
+	// a serialized container followed by other bytes is not a container, it is plaintext that starts with one
+	if _, err := getEnvelopeIDFromData(data); err == nil && len(data) != SerializedContainerMinSize+len(internal) {
+		return false
+	}
 
 	handler, err := GetHandlerByEnvelopeID(envelopeID)
 	if err != nil {
